@@ -36,12 +36,14 @@ def stress_case(args):
     try:
         conf = vlib.write_conf(d)
         try:
+            if mode == 'churn':
+                threads = 4
             r = subprocess.run([thrdrv, lib, mode, str(threads), str(iters)], capture_output=True, text=True, errors='replace', env={'SOFTHSM2_CONF': conf}, timeout=90)
         except subprocess.TimeoutExpired:
             return {'i': idx, 'finding': 'stress run %d (%d threads x %d read-only calls) did not finish in 90 s' % (idx, threads, iters), 'raw': 'TIMEOUT'}
         line = r.stdout.strip().splitlines()[-1] if r.stdout.strip() else ''
         if r.returncode < 0:
-            return {'i': idx, 'finding': '%s run %d: the process was killed by signal %d while %d threads only read unchanging objects' % (mode, idx, -r.returncode, threads), 'raw': line}
+            return {'i': idx, 'finding': '%s run %d: the process was killed by signal %d while %d threads %s' % (mode, idx, -r.returncode, threads, 'created / destroyed session objects and searched' if mode == 'churn' else 'only read unchanging objects'), 'raw': line}
         if line.startswith('stress ok'):
             return {'i': idx, 'finding': None, 'raw': line, 'calls': int(line.split('calls=')[1])}
         if line.startswith('stress bad') or line == 'TIMEOUT':
